@@ -5,10 +5,10 @@
   length, every count and round number, every placement of the buffers, every labelling of the data bytes — all of them may be secret), the run COMPLETES,
   i.e. the monitor never fires.  Together with `TJ.Props.C07.noninterference` (equal leakage traces for inputs that agree on everything public) this is the
   constant-time statement without the restriction to the shapes the check executes, for these entry points and all their callees:
-    tinyjambu_{128,192,256}_aead_encrypt / _decrypt, tinyjambu_{128,192,256}_siv_encrypt / _decrypt, tinyjambu_hash, tinyjambu_hmac, tinyjambu_pbkdf2,
+    tinyjambu_{128,192,256}_aead_encrypt / _decrypt, tinyjambu_{128,192,256}_siv_encrypt / _decrypt, tinyjambu_hash, tinyjambu_hmac, tinyjambu_hkdf / _hkdf_extract / _hkdf_expand, tinyjambu_pbkdf2,
     tinyjambu_prng_init_user / _reseed / _generate / _feed / _set_reseed_limit / _free (user entropy callback), tinyjambu_prng_init, tinyjambu_prng_init_user with a NULL
     callback and tinyjambu_prng_generate with the system source (`tinyjambu_prng_system`; the OS shim below it is a primitive of the semantics).
-  Not covered by a theorem (the check still executes a family of shapes for them): the HKDF functions, the streaming hash/HMAC entry points as API calls.
+  The streaming entry points tinyjambu_hash_init / _reinit / _update / _finalize and tinyjambu_hmac_init / _reinit / _update / _finalize are covered as top-level calls too (TJ.Props.StreamGen).
   (generated once by a script from the statements of those theorems; checked by Lean like everything else)
 -/
 import TJ.Props.C02Gen
@@ -17,6 +17,8 @@ import TJ.Props.C09Gen
 import TJ.Props.C08Gen
 import TJ.Props.C10Gen
 import TJ.Props.C12Gen
+import TJ.Props.StreamGen
+import TJ.Props.C13Gen
 import TJ.Props.C14Gen
 import TJ.Props.C15Gen
 import TJ.Props.C17Gen
@@ -123,6 +125,124 @@ theorem hmac_source_is_rfc2104_never_taints (st : St) (bo bk bi : Nat) (XO XK XI
     ∃ fuel sig e st', callFun prog fuel idx_tinyjambu_hmac false
         [(mkPtr bo (baseo + oo), .pub), (mkPtr bk (basek + koff), .pub), (key.length, .pub), (mkPtr bi (basei + ioff), .pub), (data.length, .pub)] st = .ok sig e st' := by
   obtain ⟨fuel, st', XO', h, _⟩ := hmac_source_is_rfc2104 st bo bk bi XO XK XI baseo oo basek koff basei ioff key data hO hK hI hltO hltK hltI hkd hid hin hsz
+  exact ⟨fuel, _, _, _, h⟩
+
+open TJ.Props.C15Gen TJ.Props.StreamGen in
+/-- every shape completes under the secrecy monitor (corollary of `TJ.Props.StreamGen.hash_init_source`) -/
+theorem hash_init_source_never_taints (st : St) (bs baseS : Nat) (X : Array LByte) (old : HState)
+    (hS : st.mem[bs]? = some ⟨X, baseS⟩) (hXs : 52 ≤ X.size) (hal : baseS % 4 = 0) (hlt : baseS + X.size < ptrBase) (hsz : st.mem.size + 2 < 2 ^ 30) :
+    ∃ fuel sig e st', callFun prog fuel idx_tinyjambu_hash_init false [(mkPtr bs baseS, .pub)] st = .ok sig e st' := by
+  obtain ⟨fuel, st', X', h, _⟩ := hash_init_source st bs baseS X old hS hXs hal hlt hsz
+  exact ⟨fuel, _, _, _, h⟩
+
+open TJ.Props.C15Gen TJ.Props.StreamGen in
+/-- every shape completes under the secrecy monitor (corollary of `TJ.Props.StreamGen.hash_reinit_source`) -/
+theorem hash_reinit_source_never_taints (st : St) (bs baseS : Nat) (X : Array LByte) (old : HState)
+    (hS : st.mem[bs]? = some ⟨X, baseS⟩) (hXs : 52 ≤ X.size) (hal : baseS % 4 = 0) (hlt : baseS + X.size < ptrBase) (hsz : st.mem.size + 2 < 2 ^ 30) :
+    ∃ fuel sig e st', callFun prog fuel idx_tinyjambu_hash_reinit false [(mkPtr bs baseS, .pub)] st = .ok sig e st' := by
+  obtain ⟨fuel, st', X', h, _⟩ := hash_reinit_source st bs baseS X old hS hXs hal hlt hsz
+  exact ⟨fuel, _, _, _, h⟩
+
+open TJ.Props.C15Gen TJ.Props.StreamGen in
+/-- every shape completes under the secrecy monitor (corollary of `TJ.Props.StreamGen.hash_update_source`) -/
+theorem hash_update_source_never_taints (st : St) (bs bi : Nat) (X XI : Array LByte) (baseS basei off : Nat) (h : HState) (data : Bytes)
+    (hS : st.mem[bs]? = some ⟨X, baseS⟩) (hI : st.mem[bi]? = some ⟨XI, basei⟩) (hne : bi ≠ bs)
+    (hrep : HObjV X h) (halS : baseS % 4 = 0) (hltS : baseS + X.size < ptrBase) (hltI : basei + XI.size < ptrBase) (hsz : st.mem.size + 2 < 2 ^ 30) (hd : BytesV XI off data) :
+    ∃ fuel sig e st', callFun prog fuel idx_tinyjambu_hash_update false [(mkPtr bs baseS, .pub), (mkPtr bi (basei + off), .pub), (data.length, .pub)] st = .ok sig e st' := by
+  obtain ⟨fuel, st', blk', h, _⟩ := hash_update_source st bs bi X XI baseS basei off h data hS hI hne hrep halS hltS hltI hsz hd
+  exact ⟨fuel, _, _, _, h⟩
+
+open TJ.Props.C15Gen TJ.Props.StreamGen in
+/-- every shape completes under the secrecy monitor (corollary of `TJ.Props.StreamGen.hash_finalize_source`) -/
+theorem hash_finalize_source_never_taints (st : St) (bs bo : Nat) (X XO : Array LByte) (baseS baseo oo : Nat) (h : HState)
+    (hS : st.mem[bs]? = some ⟨X, baseS⟩) (hO : st.mem[bo]? = some ⟨XO, baseo⟩) (hne : bo ≠ bs) (o : HObjV X h)
+    (hal : baseS % 4 = 0) (hlt : baseS + X.size < ptrBase) (hltO : baseo + XO.size < ptrBase) (hin : oo + 32 ≤ XO.size) (hsz : st.mem.size + 2 < 2 ^ 30) :
+    ∃ fuel sig e st', callFun prog fuel idx_tinyjambu_hash_finalize false [(mkPtr bs baseS, .pub), (mkPtr bo (baseo + oo), .pub)] st = .ok sig e st' := by
+  obtain ⟨fuel, st', blkS, blkO, h, _⟩ := hash_finalize_source st bs bo X XO baseS baseo oo h hS hO hne o hal hlt hltO hin hsz
+  exact ⟨fuel, _, _, _, h⟩
+
+open TJ.Props.C15Gen TJ.Props.StreamGen in
+/-- every shape completes under the secrecy monitor (corollary of `TJ.Props.StreamGen.hmac_init_source`) -/
+theorem hmac_init_source_never_taints (st : St) (bs bk : Nat) (X XK : Array LByte) (baseS basek koff : Nat) (h : HState) (key : Bytes)
+    (hS : st.mem[bs]? = some ⟨X, baseS⟩) (hK : st.mem[bk]? = some ⟨XK, basek⟩) (hne : bk ≠ bs) (hXs : 52 ≤ X.size) (halS : baseS % 4 = 0)
+    (hltS : baseS + X.size < ptrBase) (hltK : basek + XK.size < ptrBase) (hkd : BytesV XK koff key) (hsz : st.mem.size + 3 < 2 ^ 30) :
+    ∃ fuel sig e st', callFun prog fuel idx_tinyjambu_hmac_init false [(mkPtr bs baseS, .pub), (mkPtr bk (basek + koff), .pub), (key.length, .pub)] st = .ok sig e st' := by
+  obtain ⟨fuel, st', X', h, _⟩ := hmac_init_source st bs bk X XK baseS basek koff h key hS hK hne hXs halS hltS hltK hkd hsz
+  exact ⟨fuel, _, _, _, h⟩
+
+open TJ.Props.C15Gen TJ.Props.StreamGen in
+/-- every shape completes under the secrecy monitor (corollary of `TJ.Props.StreamGen.hmac_reinit_source`) -/
+theorem hmac_reinit_source_never_taints (st : St) (bs bk : Nat) (X XK : Array LByte) (baseS basek koff : Nat) (h : HState) (key : Bytes)
+    (hS : st.mem[bs]? = some ⟨X, baseS⟩) (hK : st.mem[bk]? = some ⟨XK, basek⟩) (hne : bk ≠ bs) (hXs : 52 ≤ X.size) (halS : baseS % 4 = 0)
+    (hltS : baseS + X.size < ptrBase) (hltK : basek + XK.size < ptrBase) (hkd : BytesV XK koff key) (hsz : st.mem.size + 3 < 2 ^ 30) :
+    ∃ fuel sig e st', callFun prog fuel idx_tinyjambu_hmac_reinit false [(mkPtr bs baseS, .pub), (mkPtr bk (basek + koff), .pub), (key.length, .pub)] st = .ok sig e st' := by
+  obtain ⟨fuel, st', X', h, _⟩ := hmac_reinit_source st bs bk X XK baseS basek koff h key hS hK hne hXs halS hltS hltK hkd hsz
+  exact ⟨fuel, _, _, _, h⟩
+
+open TJ.Props.C15Gen TJ.Props.StreamGen in
+/-- every shape completes under the secrecy monitor (corollary of `TJ.Props.StreamGen.hmac_update_source`) -/
+theorem hmac_update_source_never_taints (st : St) (bs bi : Nat) (X XI : Array LByte) (baseS basei off : Nat) (h : HState) (data : Bytes)
+    (hS : st.mem[bs]? = some ⟨X, baseS⟩) (hI : st.mem[bi]? = some ⟨XI, basei⟩) (hne : bi ≠ bs)
+    (hrep : HObjV X h) (halS : baseS % 4 = 0) (hltS : baseS + X.size < ptrBase) (hltI : basei + XI.size < ptrBase) (hsz : st.mem.size + 2 < 2 ^ 30) (hd : BytesV XI off data) :
+    ∃ fuel sig e st', callFun prog fuel idx_tinyjambu_hmac_update false [(mkPtr bs baseS, .pub), (mkPtr bi (basei + off), .pub), (data.length, .pub)] st = .ok sig e st' := by
+  obtain ⟨fuel, st', X', h, _⟩ := hmac_update_source st bs bi X XI baseS basei off h data hS hI hne hrep halS hltS hltI hsz hd
+  exact ⟨fuel, _, _, _, h⟩
+
+open TJ.Props.C15Gen TJ.Props.StreamGen in
+/-- every shape completes under the secrecy monitor (corollary of `TJ.Props.StreamGen.hmac_finalize_source`) -/
+theorem hmac_finalize_source_never_taints (st : St) (bs bk bo : Nat) (X XK XO : Array LByte) (baseS basek koff baseo oo : Nat) (h : HState) (key : Bytes)
+    (hS : st.mem[bs]? = some ⟨X, baseS⟩) (hK : st.mem[bk]? = some ⟨XK, basek⟩) (hO : st.mem[bo]? = some ⟨XO, baseo⟩) (hnk : bk ≠ bs) (hno : bo ≠ bs)
+    (hrep : HObjV X h) (halS : baseS % 4 = 0) (hltS : baseS + X.size < ptrBase) (hltK : basek + XK.size < ptrBase) (hltO : baseo + XO.size < ptrBase)
+    (hkd : BytesV XK koff key) (hin : oo + 32 ≤ XO.size) (hsz : st.mem.size + 5 < 2 ^ 30) :
+    ∃ fuel sig e st', callFun prog fuel idx_tinyjambu_hmac_finalize false
+        [(mkPtr bs baseS, .pub), (mkPtr bk (basek + koff), .pub), (key.length, .pub), (mkPtr bo (baseo + oo), .pub)] st = .ok sig e st' := by
+  obtain ⟨fuel, st', X', XO', h, _⟩ := hmac_finalize_source st bs bk bo X XK XO baseS basek koff baseo oo h key hS hK hO hnk hno hrep halS hltS hltK hltO hkd hin hsz
+  exact ⟨fuel, _, _, _, h⟩
+
+open TJ.Props.C15Gen TJ.Props.C13Gen in
+/-- every shape completes under the secrecy monitor (corollary of `TJ.Props.C13Gen.hkdf_source_is_rfc5869`) -/
+theorem hkdf_source_is_rfc5869_never_taints (st : St) (bo bk bt : Nat) (XO XK XT : Array LByte) (baseo oo basek koff baset toff n : Nat) (key salt info : Bytes) (pinfo bi basei ioff : Nat)
+    (XI : Array LByte) (hn : n ≤ 8160)
+    (hO : st.mem[bo]? = some ⟨XO, baseo⟩) (hK : st.mem[bk]? = some ⟨XK, basek⟩) (hT : st.mem[bt]? = some ⟨XT, baset⟩)
+    (hltO : baseo + XO.size < ptrBase) (hltK : basek + XK.size < ptrBase) (hltT : baset + XT.size < ptrBase)
+    (hkd : BytesV XK koff key) (htd : BytesV XT toff salt) (hin : oo + n ≤ XO.size)
+    (hI : info = [] ∨ (st.mem[bi]? = some ⟨XI, basei⟩ ∧ BytesV XI ioff info ∧ pinfo = mkPtr bi (basei + ioff) ∧ bi ≠ bo ∧ basei + XI.size < ptrBase))
+    (hsz : st.mem.size + 10 < 2 ^ 30) :
+    ∃ fuel sig e st', callFun prog fuel idx_tinyjambu_hkdf true
+        [(mkPtr bo (baseo + oo), .pub), (n, .pub), (mkPtr bk (basek + koff), .pub), (key.length, .pub), (mkPtr bt (baset + toff), .pub), (salt.length, .pub),
+         (pinfo, .pub), (info.length, .pub)] st = .ok sig e st' := by
+  obtain ⟨fuel, st', XO', h, _⟩ := hkdf_source_is_rfc5869 st bo bk bt XO XK XT baseo oo basek koff baset toff n key salt info pinfo bi basei ioff XI hn hO hK hT hltO hltK hltT hkd htd hin hI hsz
+  exact ⟨fuel, _, _, _, h⟩
+
+open TJ.Props.C15Gen TJ.Props.C13Gen in
+/-- every shape completes under the secrecy monitor (corollary of `TJ.Props.C13Gen.hkdf_source_cap`) -/
+theorem hkdf_source_cap_never_taints (st : St) (vo n vk vkl vt vtl vi vil : Nat) (hn : n > 8160) :
+    ∃ fuel sig e st', callFun prog fuel idx_tinyjambu_hkdf true [(vo, .pub), (n, .pub), (vk, .pub), (vkl, .pub), (vt, .pub), (vtl, .pub), (vi, .pub), (vil, .pub)] st = .ok sig e st' := by
+  obtain ⟨fuel, st', h, _⟩ := hkdf_source_cap st vo n vk vkl vt vtl vi vil hn
+  exact ⟨fuel, _, _, _, h⟩
+
+open TJ.Props.C15Gen TJ.Props.C13Gen in
+/-- every shape completes under the secrecy monitor (corollary of `TJ.Props.C13Gen.expand_source_is_model`) -/
+theorem expand_source_is_model_never_taints (st : St) (bK bo : Nat) (X XO : Array LByte) (baseK baseo oo n : Nat) (k : KState) (od : Prop) (info : Bytes) (pinfo bi basei ioff : Nat) (XI : Array LByte)
+    (hK : st.mem[bK]? = some ⟨X, baseK⟩) (ho : KObjV X k od) (hp32 : k.posn.toNat ≤ 32) (hod : (k.counter ≠ 1 ∨ k.posn.toNat < 32) → od)
+    (hO : st.mem[bo]? = some ⟨XO, baseo⟩) (hKo : bK ≠ bo) (hltK : baseK + X.size < ptrBase) (hltO : baseo + XO.size < ptrBase) (hin : oo + n ≤ XO.size)
+    (hI : info = [] ∨ (st.mem[bi]? = some ⟨XI, basei⟩ ∧ BytesV XI ioff info ∧ pinfo = mkPtr bi (basei + ioff) ∧ bi ≠ bK ∧ bi ≠ bo ∧ basei + XI.size < ptrBase))
+    (hsz : st.mem.size + 6 < 2 ^ 30) :
+    ∃ fuel sig e st', callFun prog fuel idx_tinyjambu_hkdf_expand true
+        [(mkPtr bK baseK, .pub), (pinfo, .pub), (info.length, .pub), (mkPtr bo (baseo + oo), .pub), (n, .pub)] st = .ok sig e st' := by
+  obtain ⟨fuel, st', rv, h, _⟩ := expand_source_is_model st bK bo X XO baseK baseo oo n k od info pinfo bi basei ioff XI hK ho hp32 hod hO hKo hltK hltO hin hI hsz
+  exact ⟨fuel, _, _, _, h⟩
+
+open TJ.Props.C15Gen TJ.Props.C13Gen in
+/-- every shape completes under the secrecy monitor (corollary of `TJ.Props.C13Gen.extract_source_is_model`) -/
+theorem extract_source_is_model_never_taints (st : St) (bs bk bt : Nat) (X XK XT : Array LByte) (baseS basek koff baset toff : Nat) (k : KState) (od : Prop) (key salt : Bytes)
+    (hS : st.mem[bs]? = some ⟨X, baseS⟩) (hK : st.mem[bk]? = some ⟨XK, basek⟩) (hT : st.mem[bt]? = some ⟨XT, baset⟩) (hnk : bk ≠ bs) (hnt : bt ≠ bs)
+    (hXs : 66 ≤ X.size) (hout : od → BytesV X 32 k.out) (houtl : k.out.length = 32)
+    (hltS : baseS + X.size < ptrBase) (hltK : basek + XK.size < ptrBase) (hltT : baset + XT.size < ptrBase)
+    (hkd : BytesV XK koff key) (htd : BytesV XT toff salt) (hsz : st.mem.size + 9 < 2 ^ 30) :
+    ∃ fuel sig e st', callFun prog fuel idx_tinyjambu_hkdf_extract false
+        [(mkPtr bs baseS, .pub), (mkPtr bk (basek + koff), .pub), (key.length, .pub), (mkPtr bt (baset + toff), .pub), (salt.length, .pub)] st = .ok sig e st' := by
+  obtain ⟨fuel, st', X', h, _⟩ := extract_source_is_model st bs bk bt X XK XT baseS basek koff baset toff k od key salt hS hK hT hnk hnt hXs hout houtl hltS hltK hltT hkd htd hsz
   exact ⟨fuel, _, _, _, h⟩
 
 open TJ.Props.C15Gen TJ.Props.C14Gen in
